@@ -40,7 +40,9 @@ Inductive rd := RdNil | RdHole | RdVal (v : val).
 Record ldef := mkL {
   l_parent : option lid;          (* None: a basicLoader (the static loader); Some p: parented by p *)
   l_isfile : bool;                (* a fileBasedLoader *)
-  l_files : list (key * val)      (* its index: the names that have a file, and the value the file defines *)
+  l_files : list (key * val);     (* its index: the names that have a file, and the value the file defines *)
+  l_bad : list key                (* those whose file cannot be instantiated: the instantiator panics (a syntax error,
+                                     PCORE_WRONG_DEFINITION, PCORE_NO_DEFINITION; loader/instantiate.go) before it defines anything *)
 }.
 Definition config := list ldef.
 
@@ -54,6 +56,7 @@ Inductive res :=
 | RDefined (v : val)            (* SetEntry returned an entry with this value *)
 | RBool (b : bool)
 | RErr                          (* panic AttemptToRedefine *)
+| RFileErr                      (* px.Load escaped with the error of the instantiator of a file that is broken *)
 | RFault.                       (* a Go runtime fault (none is reachable, see ConcProofs.no_fault) *)
 
 Inductive event :=
@@ -113,7 +116,7 @@ Definition set_entry (sh : shared) (d : lid) (n : key) (e : entry) : shared * op
 
 (* ---- configuration ----------------------------------------------------------------------------- *)
 
-Definition ldef_of (cfg : config) (d : lid) : ldef := nth d cfg (mkL None false []).
+Definition ldef_of (cfg : config) (d : lid) : ldef := nth d cfg (mkL None false [] []).
 Definition is_file (cfg : config) (d : lid) : bool := l_isfile (ldef_of cfg d).
 
 Fixpoint assoc (fs : list (key * val)) (n : key) : option val :=
@@ -124,6 +127,10 @@ Fixpoint assoc (fs : list (key * val)) (n : key) : option val :=
 (* findExistingPath filebased.go:208 (under the loader's lock; the index does not change once built) *)
 Definition file_of (cfg : config) (d : lid) (n : key) : option val :=
   if is_file cfg d then assoc (l_files (ldef_of cfg d)) n else None.
+
+(* the file of n under the file based loader d is there but cannot be instantiated *)
+Definition file_bad (cfg : config) (d : lid) (n : key) : bool :=
+  is_file cfg d && existsb (N.eqb n) (l_bad (ldef_of cfg d)).
 
 Fixpoint chain_up (cfg : config) (fuel : nat) (l : lid) : list lid :=
   match fuel with
@@ -149,7 +156,8 @@ Inductive pc :=
 | PChecked (l : lid) (n : key) (d : lid) (lk : lockid) (rest : list lid)      (* "instantiate.checked": GetEntry was nil *)
 | PMarked (l : lid) (n : key) (d : lid) (lk : lockid) (rest : list lid)       (* "instantiate.marked" *)
 | PUnlocked (l : lid) (n : key) (d : lid) (lk : lockid) (r : option rd) (rest : list lid).
-                                   (* "instantiate.unlocked" (deferred function); r = None: panicking *)
+                                   (* "instantiate.unlocked" (deferred function, filebased.go:264: it runs on the normal return
+                                      and while the instantiator's panic unwinds); r = None: panicking *)
 
 Record thread := mkT { t_pc : pc; t_todo : list op }.
 
@@ -241,6 +249,10 @@ Definition seg (cfg : config) (sh : shared) (t : tid) (p : pc) : option (shared 
       match file_of cfg d n with
       | None => Some (set_held sh lk None, (PUnlocked l n d lk None rest, [EvParse t d n]))
       | Some fv =>
+          if file_bad cfg d n
+          then (* the instantiator panics before it defines anything; the deferred function unlocks (:265) *)
+               Some (set_held sh lk None, (PUnlocked l n d lk None rest, [EvParse t d n]))
+          else
           match set_entry sh d n (Some fv) with
           | (sh', Some _) => Some (set_held sh' lk None, (PUnlocked l n d lk (Some (get sh' d n)) rest, [EvParse t d n]))
           | (sh', None) => Some (set_held sh' lk None, (PUnlocked l n d lk None rest, [EvParse t d n]))
@@ -249,7 +261,7 @@ Definition seg (cfg : config) (sh : shared) (t : tid) (p : pc) : option (shared 
   | PUnlocked l n d lk r rest =>                          (* :267-269 delete(l.locks, key) *)
       let sh' := set_lockmap sh d n None in
       match r with
-      | None => Some (sh', fin t (OLoad l n) RErr)
+      | None => Some (sh', fin t (OLoad l n) (if file_bad cfg d n then RFileErr else RErr))    (* the panic goes on *)
       | Some e => Some (sh', next_level t l n e rest)
       end
   end.
